@@ -35,6 +35,10 @@ func main() {
 	idx := GP64()
 	XORL(idx.As32(), idx.As32())
 
+	Comment("An empty slice has no keys (and may have a nil base).")
+	TESTQ(n, n)
+	JE(LabelRef("NotFound"))
+
 	Label("loop")
 	m := Mem{Base: ptr, Index: idx, Scale: 8}
 
@@ -72,6 +76,9 @@ func main() {
 	ADDL(Imm(6), idx.As32())
 
 	Label("Found")
+	Comment("A match at or past len(xs) lies outside the slice.")
+	CMPQ(idx, n)
+	JAE(LabelRef("NotFound"))
 	MOVL(idx.As32(), n2.As32()) // n2 is no longer being used
 
 	Label("NotFound")
